@@ -74,6 +74,8 @@ func TemplateFromCert(ctx context.Context, cert *x509.Certificate, pubKey any) (
 		timestamp = skc.Now
 	}
 
+	// The certificate serial number is the same as the subject's since certificates aren't reissued.
+	template.SerialNumber = subjectSerial
 	template.Subject.CommonName = subjectCn
 	template.Subject.SerialNumber = subjectSerial.String()
 	template.NotBefore = timestamp
